@@ -55,8 +55,9 @@ SecS     == <<83>>                                        \* "S"
 \*     files define in S must arrive all the same.
 MShape(s) == CASE s \in {"bb", "bn", "bs", "bh"} -> "both" [] s \in {"nb", "nn", "ns", "nh"} -> "nogroup"
                [] s \in {"hb", "hn", "hs", "hh"} -> "header" [] OTHER -> "section"
+\*   c (drop-ins only) comment lines only: the file is consulted, merged and listed in the history, but sets nothing
 DShape(s) == CASE s \in {"bb", "nb", "sb", "hb"} -> "both" [] s \in {"bn", "nn", "sn", "hn"} -> "nogroup"
-               [] s \in {"bh", "nh", "sh", "hh"} -> "header" [] OTHER -> "section"
+               [] s \in {"bh", "nh", "sh", "hh"} -> "header" [] s \in {"bc", "nc", "sc", "hc"} -> "comment" [] OTHER -> "section"
 Body(f, shape) ==
   (IF shape \in {"both", "nogroup", "header"} THEN <<Ent(NoG, KKey, IdVal(f)), Ent(NoG, UKey(f), <<49>>)>> ELSE <<>>)
   \o (IF shape \in {"both", "section"} THEN <<Ent(SecS, KKey, IdVal(f)), Ent(SecS, UKey(f), <<49>>)>> ELSE <<>>)
@@ -125,6 +126,10 @@ Read(tree, faults) ==
         cfg |-> FoldMerge([j \in 1..Len(U) |-> Content(tree, U[j])])]
 AllFiles(tree) == {File(l, r) : l \in 1..NLy(tree), r \in 0..NNames}
 NoFaults(tree) == [f \in AllFiles(tree) |-> {}]
+
+\* econf_getPath of the result (C17): a result merged from two or more consulted files has no path of its own
+MergedResult(tree, faults) == LET o == Read(tree, faults) IN o.rc = "ECONF_SUCCESS" /\ Len(o.hist) >= 2
+PathIsEmpty(tree, faults) == MergedResult(tree, faults)
 
 \* ---------- the sentence of C01 ----------
 Override(m1, m2) == [p \in DOMAIN m1 \cup DOMAIN m2 |-> IF p \in DOMAIN m2 THEN m2[p] ELSE m1[p]]
